@@ -621,9 +621,9 @@ func (db *ContractDB) loadContractFile(path, pkg string) error {
 			body := rest
 			ch := ""
 			if kw == "on-recv" || kw == "on-send" || kw == "on-call" {
-				i := strings.Index(rest, ":")
+				i := strings.Index(rest, ": ")
 				if i < 0 {
-					return fmt.Errorf("%s: on-recv needs '<chan>: $g = expr'", pos)
+					return fmt.Errorf("%s: %s needs '<name>: $g = expr'", pos, kw)
 				}
 				ch = strings.TrimSpace(rest[:i])
 				body = strings.TrimSpace(rest[i+1:])
@@ -883,7 +883,7 @@ func loadContracts(p *Prog, specDir string) (*ContractDB, error) {
 		}
 	}
 	for _, cc := range db.Callsites {
-		if strings.HasPrefix(cc.Callee, "var:") {
+		if strings.HasPrefix(cc.Callee, "var:") || strings.HasPrefix(cc.Callee, "elem:") {
 			cc.Key = cc.Callee
 			continue
 		}
